@@ -11,7 +11,9 @@ import (
 	"sort"
 	"strings"
 	"sync"
+	"sync/atomic"
 	"testing"
+	"time"
 
 	"google.golang.org/genproto/googleapis/api/annotations"
 	"google.golang.org/grpc"
@@ -49,6 +51,34 @@ type Case struct {
 	StreamInt bool   `json:"stream_int"`
 	Stats     bool   `json:"stats"`
 	Behaviour string `json:"behaviour"` // pass | replace-reply | replace-error | context
+	Proxied   bool   `json:"proxied"`   // the service is a backend registered with RegisterConn
+}
+
+// The proxied variant: one real backend serves un.C18 with the handlers of
+// the current script (swapped through an atomic pointer).
+type script struct {
+	unary  dyn.UnaryFn
+	stream dyn.StreamFn
+}
+
+var (
+	backendOnce sync.Once
+	backend     *drive.Backend
+	curScript   atomic.Pointer[script]
+)
+
+func theBackend() *drive.Backend {
+	backendOnce.Do(func() {
+		w := theWorld()
+		backend = drive.StartBackend(w, w.ServiceDesc("un.C18",
+			func(ctx context.Context, fm string, req *dynamicpb.Message) (proto.Message, error) {
+				return curScript.Load().unary(ctx, fm, req)
+			},
+			func(full string, in, out protoreflect.MessageDescriptor, ss grpc.ServerStream) error {
+				return curScript.Load().stream(full, in, out, ss)
+			}))
+	})
+	return backend
 }
 
 var (
@@ -184,6 +214,9 @@ func execute(c Case, unaryInt, streamInt, withStats bool, behaviour string) (run
 	il, hl := &intLog{}, &handlerLog{}
 	sr := &statsRec{events: map[int][]event{}, names: map[int]string{}}
 	opts := []larking.MuxOption{larking.FilesOption(w.Files)}
+	if c.Proxied {
+		opts = nil // descriptors come from the backend's reflection service
+	}
 	replaced := msgOfSize(w, 7)
 	if unaryInt {
 		ui := func(ctx context.Context, req any, info *grpc.UnaryServerInfo, h grpc.UnaryHandler) (any, error) {
@@ -282,7 +315,15 @@ func execute(c Case, unaryInt, streamInt, withStats bool, behaviour string) (run
 		}
 		return nil
 	}
-	if err := mux.VerifRegisterService(w.ServiceDesc("un.C18", unary, stream), nil); err != nil {
+	if c.Proxied {
+		curScript.Store(&script{unary, stream})
+		ctx, cancel := context.WithTimeout(context.Background(), 20*time.Second)
+		err := mux.RegisterConn(ctx, theBackend().CC)
+		cancel()
+		if err != nil {
+			panic(err)
+		}
+	} else if err := mux.VerifRegisterService(w.ServiceDesc("un.C18", unary, stream), nil); err != nil {
 		panic(err)
 	}
 	// request
@@ -375,7 +416,7 @@ func Check(c Case) []evid.Violation {
 	if active && il.fullMethod != methodOf[c.Shape] {
 		return fail("interceptor", "interceptor-fullmethod", "FullMethod %q want %q", il.fullMethod, methodOf[c.Shape])
 	}
-	if active && c.Behaviour == "context" && !hl.sawCtx {
+	if active && c.Behaviour == "context" && !hl.sawCtx && !c.Proxied {
 		return fail("interceptor", "context-not-propagated", "context decorated by the interceptor did not reach the handler")
 	}
 	// ---- what the interceptor returns is what the client gets / transparency ----
@@ -442,14 +483,18 @@ func Check(c Case) []evid.Violation {
 		if firstOutPayload >= 0 && (outHeaderAt < 0 || outHeaderAt > firstOutPayload) {
 			return fail("stats", "outheader-order", "OutHeader must precede the first OutPayload: %v", ks)
 		}
-		if nIn != hl.recv {
+		// A backend's failing script may send replies that gRPC itself never
+		// delivers to the proxy; counts are compared for proxied calls only
+		// when the script succeeds.
+		countsComparable := !c.Proxied || c.FailAfter < 0
+		if countsComparable && nIn != hl.recv {
 			return fail("stats", "inpayload-count", "InPayload x%d but the handler received %d messages (%v)", nIn, hl.recv, ks)
 		}
 		wantOut := hl.sent
 		if active && c.Behaviour == "replace-error" && unaryMethod {
 			wantOut = 0
 		}
-		if nOut != wantOut {
+		if countsComparable && nOut != wantOut {
 			return fail("stats", "outpayload-count", "OutPayload x%d but %d messages were sent (%v)", nOut, wantOut, ks)
 		}
 		wantErr := hl.err
@@ -525,6 +570,24 @@ func TestProp(t *testing.T) {
 		}
 		evid.Eval(key, cl...)
 		evid.Sample(c.Shape+"/"+c.Transport, c)
+		evid.Report(t, prop, c, vs)
+	})
+}
+
+func TestPropProxied(t *testing.T) {
+	rapid.Check(t, func(t *rapid.T) {
+		c := genCase(t)
+		c.Proxied = true
+		if c.Transport == "httpget" {
+			c.Transport = "http" // the annotation routes of the local world are not part of the backend's implicit bindings
+		}
+		vs := Check(c)
+		key := ""
+		if c.UnaryInt || c.StreamInt || c.Stats {
+			key = fmt.Sprintf("proxied|%+v", c)
+		}
+		evid.Eval(key, "proxied", "shape="+c.Shape, "transport="+c.Transport)
+		evid.Sample("proxied/"+c.Shape+"/"+c.Transport, c)
 		evid.Report(t, prop, c, vs)
 	})
 }
